@@ -49,7 +49,7 @@ def score(d):
         shutil.rmtree(out_root, ignore_errors=True)
         shutil.rmtree(wt, ignore_errors=True)
 
-dirs = [d for d in sorted(glob.glob('/verif/seeded/*')) if not only or os.path.basename(d) in only]
+dirs = [d for d in sorted(glob.glob('/verif/seeded/*')) if os.path.isdir(d) and (not only or os.path.basename(d) in only)]
 with ThreadPoolExecutor(jobs) as ex:
     for line in ex.map(score, dirs):
         print(line, flush=True)
